@@ -57,6 +57,8 @@ func main() {
 		runC20(r, rng, thorough)
 	case "C07":
 		runC07(r, rng, thorough)
+	case "C09":
+		runC09(r, rng, thorough)
 	case "C14":
 		runC14(r, rng, thorough)
 	case "C17":
